@@ -119,6 +119,29 @@ func nullAt(data interface{}, path []interface{}) (interface{}, bool) {
 	}
 }
 
+// setAt returns data with the position at path replaced by v (when the path
+// can be walked).
+func setAt(data interface{}, path []interface{}, v interface{}) interface{} {
+	if len(path) == 0 {
+		return v
+	}
+	switch seg := path[0].(type) {
+	case string:
+		if m, _ := data.(map[string]interface{}); m != nil {
+			if sub, has := m[seg]; has {
+				m[seg] = setAt(sub, path[1:], v)
+			}
+		}
+	default:
+		if l, _ := data.([]interface{}); l != nil {
+			if i := toIndex(seg); 0 <= i && i < len(l) {
+				l[i] = setAt(l[i], path[1:], v)
+			}
+		}
+	}
+	return data
+}
+
 func toIndex(v interface{}) int {
 	switch x := v.(type) {
 	case int:
@@ -247,6 +270,7 @@ func c06Check(strat workload.Strategy, pathAware bool, r0 map[string]interface{}
 		}
 	}
 	used := make([]bool, len(entries))
+	badListSeen := map[string]bool{}
 	fragNote := ""
 	entryPath := func(m map[string]interface{}) []interface{} {
 		p, _ := m["path"].([]interface{})
@@ -261,8 +285,20 @@ func c06Check(strat workload.Strategy, pathAware bool, r0 map[string]interface{}
 		for i, m := range entries {
 			msg, _ := m["message"].(string)
 			match := strings.Contains(msg, f.Tag)
+			wantPath := f.Path
 			if f.Kind == workload.FaultBadLeaf {
 				match = !used[i] && strings.Contains(msg, "badLeaf") && (!pathAware || workload.CanonLite(stripFrag(entryPath(m))) == f.Path)
+			}
+			if f.Kind == workload.FaultBadList {
+				// two coercion failures in one list: elements 1 and 3
+				sp := workload.CanonLite(stripFrag(entryPath(m)))
+				p1 := workload.CanonLite(append(parsePath(f.Path), 1))
+				p3 := workload.CanonLite(append(parsePath(f.Path), 3))
+				match = !used[i] && strings.Contains(msg, "badLeaf") && (sp == p1 || sp == p3) && !badListSeen[f.Tag+sp]
+				if match {
+					badListSeen[f.Tag+sp] = true
+					wantPath = sp
+				}
 			}
 			if !match || used[i] {
 				continue
@@ -271,7 +307,26 @@ func c06Check(strat workload.Strategy, pathAware bool, r0 map[string]interface{}
 			n++
 			ep := entryPath(m)
 			gotPaths = append(gotPaths, workload.CanonLite(ep))
-			if pathAware && workload.CanonLite(ep) != f.Path {
+			if f.Kind == workload.FaultGroupExt {
+				ext, _ := m["extensions"].(map[string]interface{})
+				want := ""
+				for k := 1; k <= 2; k++ {
+					if strings.Contains(msg, "member "+strconv.Itoa(k)+" ") {
+						want = "E" + strconv.Itoa(f.N) + "m" + strconv.Itoa(k)
+					}
+				}
+				if ext == nil || ext["code"] != want {
+					return "extensions_lost", fmt.Sprintf("member %q of the error group returned at %s carried extensions {code: %s}, the entry has %v", msg, f.Path, want, m["extensions"])
+				}
+			}
+			if pathAware && workload.CanonLite(ep) != wantPath {
+				if workload.CanonLite(stripFrag(ep)) == wantPath {
+					fragNote = fmt.Sprintf("failure at %s (%s) is reported with path %s: the path contains a 'fragment at L:C' segment that is not a response key", wantPath, f.Kind, workload.CanonLite(ep))
+					goto pathOK
+				}
+				return "wrong_error_path", fmt.Sprintf("failure at %s (%s) is reported with path %s", wantPath, f.Kind, workload.CanonLite(ep))
+			}
+			if false && pathAware && workload.CanonLite(ep) != f.Path {
 				if workload.CanonLite(stripFrag(ep)) == f.Path {
 					// known open finding: note it and keep checking everything else
 					fragNote = fmt.Sprintf("failure at %s (%s) is reported with path %s: the path contains a 'fragment at L:C' segment that is not a response key", f.Path, f.Kind, workload.CanonLite(ep))
@@ -304,6 +359,11 @@ func c06Check(strat workload.Strategy, pathAware bool, r0 map[string]interface{}
 		exp := deepCopy(r0["data"])
 		for _, f := range fired {
 			var ok bool
+			if f.Kind == workload.FaultBadList {
+				_, want := workload.BadListFor(f.Field)
+				exp = setAt(exp, parsePath(f.Path), want)
+				continue
+			}
 			exp, ok = nullAt(exp, parsePath(f.Path))
 			if !ok {
 				// the position does not exist in the fault-free data (it is beneath a
@@ -363,7 +423,8 @@ func stripFrag(p []interface{}) []interface{} {
 	return out
 }
 
-var c06Kinds = []string{workload.FaultError, workload.FaultGGQLError, workload.FaultErrorGroup, workload.FaultBadLeaf}
+var c06Kinds = []string{workload.FaultError, workload.FaultGGQLError, workload.FaultErrorGroup, workload.FaultBadLeaf,
+	workload.FaultGroupExt, workload.FaultNestedGrp, workload.FaultBadList}
 
 func (c C06) Run(t *tape.Tape, opt core.RunOpt) (res core.Result) {
 	strat := []workload.Strategy{workload.StratInterface, workload.StratInterface, workload.StratAnyWrapped, workload.StratAnyWrapped, workload.StratReflect, workload.StratAny}[t.Draw(6)]
